@@ -19,7 +19,16 @@ import threading
 class ThreadSim:
     def __init__(self, repo, plan=None, step_cap=400000):
         self.prefix = os.path.join(os.path.realpath(repo), "statemachine") + os.sep
-        self.plan = {int(s): t for s, t in (plan or [])}
+        # plan entries: [thread, "file.py:line", occurrence, target]: when <thread> reaches that line
+        # for the <occurrence>-th time, hand the baton to <target>.  Addressing by (thread, site,
+        # occurrence) stays meaningful when earlier switches change the global order of steps.
+        self.plan = {}
+        for e in (plan or []):
+            self.plan[(e[0], e[1], int(e[2]))] = e[3]
+        self.occ = {}
+        self.stack = []
+        self.per_thread = {}  # thread -> list of sites in the order it reached them (dry runs)
+        self.record = False
         self.step = 0
         self.step_cap = step_cap
         self.sems = {}
@@ -99,10 +108,16 @@ class ThreadSim:
         if self.step > self.step_cap:
             self.overflow = True
             return
-        to = self.plan.get(self.step)
+        me = self.tl.name
+        site = f"{os.path.basename(fn)}:{line}"
+        key = (me, site)
+        n = self.occ.get(key, 0) + 1
+        self.occ[key] = n
+        if self.record:
+            self.per_thread.setdefault(me, []).append(site)
+        to = self.plan.get((me, site, n))
         if to is None:
             return
-        me = self.tl.name
         if to == me or to in self.done or to not in self.sems:
             # the planned thread is not runnable: take the next runnable one, if any
             alive = [n for n in self.order if n not in self.done and n != me]
@@ -112,8 +127,8 @@ class ThreadSim:
                 to = alive[0]
             else:
                 return
-        site = f"{os.path.basename(fn)}:{line}"
         self.switches.append([self.step, me, to, site])
+        self.stack.append(me)
         self.sites[site] = self.sites.get(site, 0) + 1
         if self.on_switch is not None:
             self.on_switch(self.step, me, to, site)
@@ -125,14 +140,52 @@ class ThreadSim:
         self.done.add(name)
         alive = [n for n in self.order if n not in self.done]
         if alive:
-            nxt = alive[0]
+            # a pre-empting thread that finishes hands the baton back to the thread it pre-empted
+            nxt = None
+            while self.stack:
+                c = self.stack.pop()
+                if c not in self.done:
+                    nxt = c
+                    break
+            if nxt is None:
+                nxt = alive[0]
             self.cur = nxt
             self.sems[nxt].release()
 
 
-def draw_plan(rnd, total_steps, names, n_switch):
-    """PCT-style: n_switch change points uniformly over the dry run's step count."""
-    if total_steps < 2 or len(names) < 2:
-        return []
-    pts = sorted(rnd.sample(range(1, total_steps + 1), min(n_switch, total_steps)))
-    return [[p, rnd.choice(names)] for p in pts]
+def draw_plan(rnd, per_thread, names, n_switch, hot, engine_files, victim=False):
+    """Draw change points addressed by (thread, site, occurrence).  ``per_thread`` is the dry run's
+    list of sites per thread; ``hot`` the set of (file, line) synchronisation points."""
+    def sites_of(t, kind):
+        seen = {}
+        out = []
+        for s in per_thread.get(t, []):
+            seen[s] = seen.get(s, 0) + 1
+            fn, ln = s.rsplit(":", 1)
+            if kind == "hot" and (fn, int(ln)) not in hot:
+                continue
+            if kind == "engine" and fn not in engine_files:
+                continue
+            out.append((s, seen[s]))
+        return out
+
+    plan = []
+    used = set()
+    vt = rnd.choice(names) if victim else None
+    for _ in range(n_switch):
+        t = vt or rnd.choice(names)
+        x = rnd.random()
+        cands = sites_of(t, "hot") if x < 0.7 else (sites_of(t, "engine") if x < 0.85 else sites_of(t, "any"))
+        if not cands:
+            cands = sites_of(t, "any")
+        if not cands:
+            continue
+        s, n = rnd.choice(cands)
+        if (t, s, n) in used:
+            continue
+        used.add((t, s, n))
+        others = [x_ for x_ in names if x_ != t]
+        if not others:
+            continue
+        plan.append([t, s, n, rnd.choice(others)])
+    return plan
